@@ -141,12 +141,20 @@ pub fn via_binary(ctx: &mut Ctx, f: &Facts, o: &EncOpts, what: &str) -> Option<c
     let r = RefOnt::derive(&pf);
     ctx.transitions(pf.n_steps());
     let bytes = encode::encode(&pf, o);
+    // lenient only if the file really differs from the canonical one (ids inside records ascending): a file that is
+    // canonical although list order was asked for has to be accepted like any other canonical file
+    let non_canonical = o.ids_in_list_order && encode::encode(&pf, &EncOpts { ids_in_list_order: false, ..o.clone() }) != bytes;
     let case = || json!({"facts": pf.to_json(), "format_version": version, "order": what, "bytes_len": bytes.len()});
     match drive::from_bytes(&bytes) {
-        Ok(Ok(ont)) => check_against_model(ctx, &ont, &r, Mode::Defaults, &format!("binary v{version}"), &case),
+        Ok(Ok(ont)) => {
+            if non_canonical {
+                ctx.bump("accepted: ids inside a record not ascending", 1);
+            }
+            check_against_model(ctx, &ont, &r, Mode::Defaults, &format!("binary v{version}"), &case)
+        }
         // ids inside records in the order of the fact list (not ascending as the crate's writer emits them): whether a
         // reader has to accept that is not stated - refuse-or-exact
-        Ok(Err(_)) | Err(_) if o.ids_in_list_order => {
+        Ok(Err(_)) | Err(_) if non_canonical => {
             ctx.exec();
             ctx.bump("refused: ids inside a record not ascending", 1);
             None
@@ -228,7 +236,7 @@ pub fn via_binary_repeated(ctx: &mut Ctx, f: &Facts, version: u8, what: &str) {
         },
         // how a record id that occurs twice is treated is not specified: refusing the file is as defensible as
         // first-wins / last-wins / merging
-        Ok(Err(_)) => {}
+        Ok(Err(_)) => ctx.bump("refused: a record id occurring twice in a section", 1),
         Err(p) => ctx.violation("Ontology::from_bytes", &format!("[{path}] panics on a file laid out as documented"), json!({"case": case(), "observed": p})),
     }
 }
